@@ -74,6 +74,7 @@ impl rustc_driver::Callbacks for Facts {
         root.set("impls", hirdump::dump_impls(tcx));
         root.set("adts", adts::dump_adts(tcx));
         root.set("typeq", adts::dump_typeq(tcx));
+        root.set("default_visitors", adts::dump_default_visitors(tcx));
 
         let mut s = String::new();
         root.write(&mut s);
